@@ -76,7 +76,8 @@ func runC03Probe(cases []string, out *bufio.Writer, _ []string) {
 	log.BufferCap.Store(10 * 1024)
 }
 
-// Concurrent runs. Case: "<sink console|file|rolling> <layout text|json> <goroutines> <eventsPerGoroutine> <bufferCap e.g. 4KB> <sizeLo> <sizeHi> <chunk>"
+// Concurrent runs. Case: "<sink console|file|rolling> <layout text|json> <goroutines> <eventsPerGoroutine> <bufferCap e.g. 4KB> <sizeLo> <sizeHi> <chunk> [<ctx 0|1>]"
+// ctx=1: a FieldsFromContext hook hands every call the SAME slice of context fields, with spare capacity (request-scoped fields kept in one place).
 // Observation: "<writes> <lines> <bad>" where bad lists lines that are not byte-identical to their event formatted alone / duplicates / missing
 func runC03(cases []string, out *bufio.Writer, _ []string) {
 	log.RegisterTimeRotation("1s", log.TimeRotation{Interval: time.Second})
@@ -110,6 +111,13 @@ func runC03(cases []string, out *bufio.Writer, _ []string) {
 		}
 		ss := &slowSink{chunk: chunk}
 		log.Stdout = ss
+		withCtx := len(f) > 8 && f[8] == "1"
+		sharedCtx := make([]log.Field, 2, 16)
+		sharedCtx[0], sharedCtx[1] = log.String("req", "r-1"), log.Int("tenant", 42)
+		log.FieldsFromContext = nil
+		if withCtx {
+			log.FieldsFromContext = func(context.Context) []log.Field { return sharedCtx[:2] }
+		}
 		if err := log.Refresh(cfg); err != nil {
 			fmt.Fprintln(out, "refresh-error", strings.ReplaceAll(err.Error(), "\n", " "))
 			continue
@@ -128,6 +136,7 @@ func runC03(cases []string, out *bufio.Writer, _ []string) {
 		wg.Wait()
 		log.Destroy()
 		log.Stdout = os.Stdout
+		log.FieldsFromContext = nil
 		var data []byte
 		writes := -1
 		if sink == "console" {
@@ -149,6 +158,9 @@ func runC03(cases []string, out *bufio.Writer, _ []string) {
 			for i := 0; i < ne; i++ {
 				ev := &log.Event{Level: log.InfoLevel, Time: time.Date(2025, 6, 1, 0, 0, 0, 0, time.UTC), Tag: "_c03_probe",
 					Fields: []log.Field{log.Msg(c03Payload(g, i, size(g, i))), log.Int("g", g)}}
+				if withCtx {
+					ev.CtxFields = []log.Field{log.String("req", "r-1"), log.Int("tenant", 42)}
+				}
 				want[string(bytes.Clone(lay.ToBytes(ev)))]++
 			}
 		}
